@@ -18,7 +18,7 @@ FRESH = re.compile(rb'x[0-9]+__fresh')
 
 def make_case(r):
     kind = r.choice(['general', 'fresh', 'fresh', 'vars', 'rename', 'enum',
-                     'cc-delay'])
+                     'cc-delay', 'fresh-parse-id'])
     cc_rules = None
     if kind == 'general':
         s = workload.small_script(r, r.choice(['small', 'medium']))
@@ -46,6 +46,31 @@ def make_case(r):
                  '--replace-by-variable', '--substitute-children']
         if r.random() < 0.5:
             extra += ['--erase-node']
+    elif kind == 'fresh-parse-id':
+        # The fresh variable is introduced for a term T = (+ a b) of the
+        # *first* assertion that no accepted step ever rebuilds (everything
+        # else that is accepted erases something after it or beside it), so
+        # the node id in its name is the one the parser gave: identical in
+        # every run.  In this family even a difference in the digits of a
+        # fresh name is a violation (the open finding 9.3 concerns nodes
+        # rebuilt by a worker).
+        k = r.randint(2, 6)
+        lines = ['(declare-const a Int)', '(declare-const b Int)',
+                 '(assert (> (+ a b) 0))']
+        for i in range(k):
+            lines.append(r.choice([f'(assert (< (* a {i + 2}) b))',
+                                   f'(assert (distinct a (- b {i})))',
+                                   f'(assert (>= (* 2 (+ b {i})) a))']))
+        lines.append('(check-sat)')
+        text = '\n'.join(lines) + '\n'
+        # '>' and the declarations have to stay (without them T has no
+        # sort and no fresh variable is proposed)
+        rules = realrun.simple_spec(
+            'subseq:%3E,%28,%2B,a,b,%29 subseq:%3E,x%23__fresh | '
+            'subseq:declare-const,a,Int,declare-const,b,Int &')
+        pred = rules[0]
+        extra = ['--disable-all', '--introduce-fresh-variables',
+                 '--erase-node']
     elif kind == 'enum':
         # enumeration datatype: several default constants of one sort, the
         # command accepts more than one of them
@@ -103,6 +128,8 @@ def make_case(r):
         extra = ['--disable-all', '--simplify-symbol-names', '--erase-node',
                  '--replace-by-variable']
     strat = r.choice(workload.STRATEGIES)
+    if kind == 'fresh-parse-id':
+        strat = r.choice(['hierarchical', 'hierarchical', 'hybrid'])
     opts = ['--strategy', strat, '-j', '1', '--timeout',
             '0.4' if kind == 'cc-delay' else '20'] + extra + \
         workload.format_options(r)
@@ -160,6 +187,8 @@ def run_case(res, base, case, r, idx):
     res.add_set('chain_lengths', len(ref[1]))
     if ref[2] and FRESH.search(ref[2]):
         res.count('cases_with_fresh_names_in_output')
+        if desc.get('kind') == 'fresh-parse-id':
+            res.count('cases_with_parse_time_fresh_name_in_output')
     if len(ref[1]) >= 2:
         res.add_distinct(common.digest(text + repr(rules) + repr(opts)))
     for v, chain, out, fresh_seen in runs[1:]:
@@ -180,6 +209,8 @@ def run_case(res, base, case, r, idx):
             after_fresh = bool(firsts) and d >= min(firsts)
             key = ('fresh-name-depends-on-timing'
                    if a == b or after_fresh else 'nondeterministic-chain')
+            if desc.get('kind') == 'fresh-parse-id':
+                key = 'nondeterministic-chain:fresh-name-of-untouched-node'
             w = dict(desc)
             w.update({'variant': v, 'reference_variant': ref[0],
                       'first_differing_write': d + 1,
